@@ -72,8 +72,11 @@ def _walk_py(root):
 
 
 class Repo:
-    def __init__(self, root=None, include_tests=False):
+    def __init__(self, root=None, include_tests=False, overlay=None):
+        """overlay: {relpath: source text} replaces files of the tree in memory (used by the
+        both-ways self-test to analyse a variant without writing a scratch copy)."""
         self.root = root or REPO
+        overlay = overlay or {}
         self.modules = {}
         self.by_relpath = {}
         self.classes = {}        # qname -> ClassInfo
@@ -89,8 +92,11 @@ class Repo:
             if not include_tests and base.startswith("test_"):
                 continue
             try:
-                with open(p, encoding="utf-8", errors="replace") as fh:
-                    src = fh.read()
+                if rel in overlay:
+                    src = overlay[rel]
+                else:
+                    with open(p, encoding="utf-8", errors="replace") as fh:
+                        src = fh.read()
                 tree = ast.parse(src, filename=rel)
             except SyntaxError as e:
                 self.parse_errors.append((rel, str(e)))
